@@ -36,6 +36,18 @@ fn scalar_vec(n: usize) -> BoxedStrategy<Vec<B32>> {
         1 => Just(vec![[0u8; 32]; n]),
         1 => scalar_for_mul().prop_map(move |s| vec![s; n]),
         1 => (scalar_for_mul(), 0..n.max(1)).prop_map(move |(s, i)| { let mut v = vec![[0u8; 32]; n]; if n > 0 { v[i] = s; } v }),
+        // every scalar of the batch short: at most m bits, the longest one exactly m bits with its top bits set
+        // (a column count derived from the longest scalar must still hold the recentering carry: seeded C04h)
+        2 => (1usize..=252, vec(any::<[u8; 32]>(), n), any::<u8>()).prop_map(move |(m, mut v, fill)| {
+            for (i, s) in v.iter_mut().enumerate() {
+                for k in m..256 { s[k / 8] &= !(1 << (k % 8)); }
+                if i == 0 || fill & 3 == 0 {
+                    // top bits all ones down to the next window boundary, and an incoming carry below
+                    for k in m.saturating_sub(8)..m { s[k / 8] |= 1 << (k % 8); }
+                }
+            }
+            v
+        }),
     ].boxed()
 }
 
